@@ -203,3 +203,7 @@ var vCallLog = map[string]int{}
 
 func vTag(p interface{}, name string) {}
 func vCalls(name string) int      { return vCallLog[name] }
+
+// vGoCount: how many goroutines were launched with the given string among their arguments
+// (symbolic executor only; natively launching the tasks is not possible in a replay).
+func vGoCount(arg string) int { return 0 }
